@@ -362,6 +362,32 @@ func GenMaint(r *sim.Rand) sim.Op {
 	}
 }
 
+// GenL0Layout is a scripted prefix for plain-API workloads that builds the L0
+// shape compaction planning must get right: an old table over the low keys, a
+// disjoint table holding the old value of a high key, then a newer table that
+// bridges both ranges and overwrites (or deletes) the high key; all flushed,
+// then one L0 compaction. Values/maintenance around it stay random.
+func GenL0Layout(r *sim.Rand, nkeys int, cf int64) []sim.Op {
+	if nkeys < 2 {
+		return nil
+	}
+	lo, hi := int64(0), int64(nkeys-1)
+	set := func(k int64) sim.Op { return sim.Op{K: "set", A: cf, B: k, C: int64(r.Intn(6))} }
+	ops := []sim.Op{set(lo), {K: "rotate"}, set(hi), {K: "rotate"}, set(lo)}
+	if r.Intn(3) == 0 {
+		ops = append(ops, sim.Op{K: "del", A: cf, B: hi})
+	} else {
+		ops = append(ops, set(hi))
+	}
+	ops = append(ops, sim.Op{K: "rotate"}, sim.Op{K: "flushall"})
+	if r.Intn(2) == 0 {
+		ops = append(ops, sim.Op{K: "compact", A: 0, B: 0, C: int64(r.Intn(3)), D: int64(r.Intn(2))})
+	} else {
+		ops = append(ops, sim.Op{K: "compactonce", A: int64(r.Intn(2))})
+	}
+	return ops
+}
+
 // GenCfg draws the configuration swarm shared by the E1 properties.
 func GenCfg(r *sim.Rand) map[string]int64 {
 	return map[string]int64{
